@@ -5,8 +5,18 @@ its custom records from D.CUSTOM_RT_WIDE instead of X/Y/Q1/zz and gives custom r
 among the kinds of GFA2 body lines: record types of several characters, among them ones made of the predefined
 record-type codes (SEG, GU, UO, FS, H#, EGUO, HS, LC, CP, ...), ones extending a code (S1, SEGMENT, Hx, P2),
 lower-case twins (s, e, seg) and ones without a letter (1, @, !~) -- every one a legal custom record type, each of
-which must reappear like any other record (tags() reports them as custom-rt:of-codes / custom-rt:long).  The other
-cases are the ones generated before the wide pool existed.
+which must reappear like any other record (tags() reports them as custom-rt:of-codes / custom-rt:long).
+Every 8th case (case number = 5 mod 8) carries one or two comment lines that contain a character which *other*
+conventions read as a line boundary but GFA does not -- vertical tab, form feed, the separators 0x1C-0x1E, and (a third
+of these cases) NEL U+0085 / LINE SEPARATOR U+2028 / PARAGRAPH SEPARATOR U+2029: everything `str.splitlines()` splits
+at apart from CR and LF -- in the middle of the comment (with a tail that reads as a comment, a custom record, an S
+line, or as no record at all), at its end, directly after the `#`.  The lines of a GFA document end at the newline
+only; a comment holds any other character (the comment field refuses the newline alone), so such a line is ONE
+record through every entry point and must be written back character by character (tags(): comment:line-boundary-char,
+comment:non-ascii).  Documents with a non-ASCII comment go through the string and list entry points only (str, str_nl,
+list take the places of file_lf / file_crlf in the rotation): what a file holds for such a character depends on the
+locale's encoding, which is not this property's business.  A bare CR inside a line is not generated (a text file read
+with universal newlines ends a line there).  The other cases are the ones generated before.
 
 Oracle (real library only).  A valid document T (props/_docgen.py) is parsed through every entry point
   str      Gfa("\\n".join(lines))            str_nl   the same text with the final newline a file has
@@ -44,20 +54,45 @@ from harness.props import _docgen as D
 
 ID = "C01"
 RULE = ("grammar-directed valid GFA1/GFA2 documents (all record types incl. custom records, in a quarter of the cases "
-        "with record types of several characters incl. ones made of predefined codes like SEG/GU/H#/LC, all 7 tag datatypes in "
+        "with record types of several characters incl. ones made of predefined codes like SEG/GU/H#/LC, in an eighth of the "
+        "cases with comments that contain VT, FF, 0x1C-0x1E, U+0085, U+2028 or U+2029 -- line boundaries for str.splitlines(), "
+        "ordinary characters for GFA --, all 7 tag datatypes in "
         "canonical and non-canonical spellings, placeholders, self-links, hairpins, parallel edges, both complement "
         "forms, containments, nested groups, shuffled order), <=12 lines (quick) / <=40 (thorough), each through 5 entry "
         "points x 4 validation levels x explicit/automatic version, plus every line alone through gfapy.Line. "
         "Non-trivial: >=3 lines and at least one tag; distinct by case hash.")
 CASE_TIMEOUT = 60
 ENTRIES = ["str", "str_nl", "list", "file_lf", "file_crlf"]
+STR_FOR_FILE = {"file_lf": "list", "file_crlf": "str_nl"}    # for documents with non-ASCII characters
 
 
 def budget(tier):
     return 1200 if tier == "quick" else 15000
 
 
+# characters at which str.splitlines() (and nothing in GFA) ends a line; CR and LF aside
+BOUNDARY_ASCII = ["\x0b", "\x0c", "\x1c", "\x1d", "\x1e"]
+BOUNDARY_WIDE = ["\x85", "\u2028", "\u2029"]
+# comment texts; %s is the character.  The tails after it read as a comment, a custom record (GFA2) / an unknown
+# record type (GFA1), a segment line, a header line, a line that is no record at all, or are empty
+BOUNDARY_COMMENTS = ["# page 1%spage 2", "# see the next page%sZ\tnotes\tkept by the exporter", "# a%s# b", "#%s", "# end%s",
+                     "#%stail", "# s%sS\tzz9\t*", "# h%sH\txq:i:1", "#\ttab%s\ttab", "# two%s%swords", "# not a record%sa b c",
+                     "# x%sX\tcustom\tab:Z:t", "## %s ##"]
+
+
+def boundary_comment(rng, wide):
+    t = rng.choice(BOUNDARY_COMMENTS)
+    pool = BOUNDARY_WIDE if wide and rng.random() < 0.8 else BOUNDARY_ASCII
+    return t % tuple(rng.choice(pool) for _ in range(t.count("%s")))
+
+
+def has_boundary_char(line):
+    return any(c in line for c in BOUNDARY_ASCII + BOUNDARY_WIDE)
+
+
 def gen_case(rng, tier, i):
+    if i % 8 == 5:
+        return gen_boundary_case(rng, tier, i)
     ml = rng.choice([4, 6, 8, 12, 12]) if tier == "quick" else rng.choice([8, 12, 20, 30, 40])
     # every 4th case draws the record types of its custom records from the wide pool (several characters, made
     # of / extending predefined codes, ...) and has more custom records; decided by the case number, so that the
@@ -68,6 +103,26 @@ def gen_case(rng, tier, i):
     else:
         d = D.gen_doc(rng, max_lines=ml, same_id_groups=False)
     return {"version": d["version"], "lines": d["lines"], "features": d["features"], "rot": rng.randrange(4)}
+
+
+def gen_boundary_case(rng, tier, i):
+    """a document of the usual kind, one or two of whose comment lines contain a character of BOUNDARY_ASCII /
+    BOUNDARY_WIDE (all of them non-ASCII-free in two cases of three, so that the file entry points see them too)"""
+    ml = rng.choice([4, 6, 8, 12, 12]) if tier == "quick" else rng.choice([8, 12, 20, 30, 40])
+    k = rng.choice([1, 1, 2])
+    d = D.gen_doc(rng, max_lines=max(3, ml - k), same_id_groups=False)
+    wide = rng.random() < 1 / 3.0
+    lines = list(d["lines"])
+    for _ in range(k):
+        c = boundary_comment(rng, wide)
+        old = [j for j, l in enumerate(lines) if l.startswith("#") and not has_boundary_char(l)]
+        if old and rng.random() < 0.5:
+            lines[rng.choice(old)] = c          # takes the place of an ordinary comment
+        else:
+            lines.insert(rng.randint(0, len(lines)), c)
+    feats = sorted(set(d["features"] + ["comment:line-boundary-char"] +
+                       (["comment:non-ascii"] if any(ord(ch) > 127 for l in lines for ch in l) else [])))
+    return {"version": d["version"], "lines": lines, "features": feats, "rot": rng.randrange(4)}
 
 
 def nontrivial(case):
@@ -160,6 +215,9 @@ def oracle(case):
         cin = D.doc_keys(lines, version)
     except D.Unparsable as e:  # generator bug, never a library failure
         return ["GENERATOR-BUG: %s" % e]
+    # a non-ASCII character (only comments have them) is in a file whatever the locale's encoding makes of it: such
+    # documents go through the string and list entry points only
+    ascii_only = all(ord(ch) < 128 for l in lines for ch in l)
     combo = 0
     for ver in (version, None):
         for vlevel in (1, 0, 2, 3):
@@ -171,6 +229,9 @@ def oracle(case):
                 entries = ENTRIES
             else:
                 entries = ["str", ENTRIES[1 + (combo + case.get("rot", 0)) % 4]]
+            if not ascii_only:
+                entries = [e for e in (STR_FOR_FILE.get(e, e) for e in entries)]
+                entries = [e for j, e in enumerate(entries) if e not in entries[:j]]
             combo += 1
             for entry in entries:
                 cfg = "entry=%s vlevel=%d version=%s" % (entry, vlevel, ver)
